@@ -1,19 +1,34 @@
 /* C17 -- persisted observe state survives a crash at any point and is restored on restart.
  *
- * One vx execution = { dry run of "life 1" (crash free, learns the tracked stdio calls and the content of the three
- * persistence files around every updater call-out), life 1 again with a kill before tracked call k, life 2 (restart) },
- * every life in its own forked process.  Crash points are the stdio / rename / remove calls the persistence code
- * makes on files of the execution's private directory (ld --wrap, link-wide pass-through wrappers, only FILE*s whose
- * fopen() path lies in that directory are counted).  Only the calls of the LAST operation of a history are crash
- * points of that history: a kill during an earlier operation is the same execution as the kill in the shorter
- * history that ends with that operation, and every prefix of a history is itself an enumerated history.
+ * One vx execution = { "life 1" crash free (learns the tracked stdio calls and the content of the three persistence
+ * files around every persistence call-out; kept per history in the scratch directory), life 1 again with a kill
+ * before tracked call k, "life 2" = restart }, every life in its own forked process of the (libcoap-free) vx child.
+ * Crash points are the stdio / rename / remove calls the persistence code makes on files of the execution's private
+ * directory (ld --wrap, link-wide pass-through wrappers; only FILE*s whose fopen() path lies in that directory are
+ * counted).  Only the calls of the LAST operation of a history are crash points of that history: a kill during an
+ * earlier operation is the same execution as the kill in the shorter history that ends with that operation, and
+ * every prefix of a history is itself an enumerated history.  Short histories additionally kill the restart itself
+ * (before each tracked call of coap_persist_startup and right after it) and restart once more.
  *
- * Oracle (reference = acknowledged operations, the interrupted one may or may not have taken effect):
- *  (1) torn:/emptied:/mixed:   each file after the kill, read by the independent parser below, equals the content
- *                              before or after the interrupted updater (as produced by the same updater when it is
- *                              not interrupted);
- *  (2) lost-resource:/lost-observation:/token-changed/stale-*:   restart restores exactly the acknowledged state;
- *  (3) observe-not-greater:    first Observe value after restart is serial-greater than everything sent before.
+ * Oracle (reference = the acknowledged operations; the interrupted one may or may not have taken effect):
+ *  (1) torn: / emptied: / mixed: <file>:<updater>@<call that was not made any more>
+ *        each file after the kill, read by the independent parser below, equals the content before the interrupted
+ *        call-out or the content the same call-out leaves when it is not interrupted;
+ *      changed-outside-update:   nothing but the five call-outs (and the loader) touches the files;
+ *  (2) lost-resource:<cause> / lost-observation:<static|dynamic>:<cause> / token-changed / stale-resource: /
+ *      stale-observation: / resource-unreachable:
+ *        restart restores exactly the acknowledged state; <cause> names where the record went:
+ *        dropped-by:<updater> (a completed call-out removed it), never-written-by:<updater>,
+ *        dropped-by-crash-in:<updater>, not-loaded (record is in the file, the loader did not restore it);
+ *  (3) observe-not-greater:after-restart:<crash-free | crash-in:<updater of the counter file> | kill-in-restart>
+ *        first Observe value after restart is serial-greater (RFC 7641 3.4) than every value of that observation
+ *        that was put on the wire before the kill;
+ *  leak:<life1|restart>:<libcoap function>   LeakSanitizer at the end of a graceful life (coap_persist_stop +
+ *        coap_free_context); any other sanitizer report / assert of a life process ends the execution abnormally
+ *        with the report in the execution's stderr, where vx names it.
+ *
+ * Knobs for experiments (not used by bin/check): C17_FULL_DEPTH (histories with kills), C17_FREE_DEPTH (kill free
+ * histories), C17_LIVES3_DEPTH (kill in the restart), C17_DOUBLE_DEPTH (kill in life 1 and in the restart).
  */
 #ifndef _GNU_SOURCE
 #define _GNU_SOURCE
